@@ -7,7 +7,7 @@
 #include "gram.h"
 #include "oracle.h"
 
-#define P_MAXTOK 26
+#define P_MAXTOK 48
 static int p_n;                       /* token count */
 static int p_sym[P_MAXTOK];           /* symbol index of each token (concrete per path) */
 static int p_code[P_MAXTOK];          /* code delivered to yaep (may be symbolic) */
@@ -28,7 +28,7 @@ static void p_input_all (int len, int first)
       p_attr[i] = sx_long ("attr");
     }
 }
-static void p_to_seq (void) { int i; seqn = p_n; for (i = 0; i < p_n; i++) { seq[i] = p_sym[i]; p_map[i] = i; } }
+static void p_to_seq (void) { int i; sx_assume (p_n <= O_MAXN); seqn = p_n; for (i = 0; i < p_n; i++) { seq[i] = p_sym[i]; p_map[i] = i; } }
 
 static int p_read_token (void **attr)
 {
@@ -290,6 +290,8 @@ static const char *const near_bases[][4] = {
   /* G35 */ { "apqdapqdbpqdz", "bpqdz", "apqbpqdz", "apqdbpqd" }, /* G36 */ { "pzzdezxqzy", "pzxqzzdezy", "pzxqzx", "pzzzdezzxpzx" },
   /* G37 */ { "abcdefx", "abcdeffx", "abcdex", "abcdef" }, /* G38 */ { "pijqrisviw", "tkutijuris", "piqriu", "vkwtiw" },
   /* G39 */ { "b", "bx", 0, 0 },
+  /* G40 */ { "xa", "xab", 0, 0 }, /* G41 */ { "ab", "atb", "aqb", "arb" }, /* G42 */ { "piqrisviw", "mijnyiz", "tiuviwyizminpiq", "piz" },
+  /* G43 */ { "aiobipcijq", "nizmiylix", "aiz", "kiwhivgiu" }, /* G44 */ { "aaaaa", "aaaaaaa", 0, 0 },
 };
 /* input family REP(m): m fragments, each chosen by the solver from the grammar's list, then a tail - long inputs with
    many repeated fragments (the goto cache and the dynamic-lookahead context table only matter there) */
@@ -300,6 +302,7 @@ static const struct repfrag rep_frags[] = {
   { "G35", { "apqd", "bpqd", "apd", 0, 0, 0 }, { "z", "", "zz" } },
   { "G36", { "pzx", "pzzzzzdezx", "qzzdezy", "qzy", "pzzdezx", "pzy" }, { "", "y", "x" } },
   { "G38", { "piq", "ris", "tiu", "viw", "rijs", "tku" }, { "", "q", 0 } },
+  { "G42", { "piq", "min", "yiz", "viw", "tiju", "ris" }, { "", "q", 0 } },
 };
 static int p_lookup_term (char c) { int j; for (j = 0; j < G.nsym; j++) if (G.sym[j].kind == SK_TERM && G.sym[j].name[0] == c && G.sym[j].name[1] == 0) return j; return -1; }
 static void p_input_rep (int m, int nfrag, int frag0)
